@@ -50,7 +50,8 @@ def run_shard(campaign, shard, nshards, seed, tier):
             while steps < 20000:
                 steps += 1
                 for src in (0, 1):
-                    pr.deliver(src, rng.randint(1, 3))
+                    # with a long separation time every step costs an eighth of the deadlines: no backlog on the links then
+                    pr.deliver(src, rng.randint(1, 3) if st <= 20 * 10**6 else len(pr.wire[src]))
                 pr.proc(0); pr.proc(1)
                 skipped += 1
                 # the listener is never left unprocessed beyond its own deadline: with a long separation time every step already
